@@ -1824,7 +1824,7 @@ class Rule(metaclass=LogicalType):
             with context.enter(route=i) as item_context:
                 try:
                     item_context.transformer(item, cls.contains)
-                except (TypeError, ValueError):
+                except Exception:  # noqa: any conversion failure (OverflowError for inf -> int ...) means "not contained"
                     pass
                 else:
                     contains += 1
